@@ -84,14 +84,14 @@ func useDocument(r resolver.DIDResolver, id did.DID) error {
 	kr := resolver.DIDKeyResolver{Resolver: r}
 	sr := resolver.DIDServiceResolver{Resolver: r}
 	firstErr := errors.New("no assertion key resolved")
-	for _, frag := range []string{"#key-1", "#key-2", "#key-3", "#key-4", "#0", "#" + id.ID} {
-		for _, rel := range allRelations {
-			_, err := kr.ResolveKeyByID(id.String()+frag, nil, rel)
-			if rel == resolver.AssertionMethod && firstErr != nil {
-				firstErr = err
-			}
+	// every key once through ResolveKeyByID (assertionMethod; key-4 is only an authentication key), every relation once through ResolveKey
+	for _, frag := range []string{"#key-1", "#key-2", "#key-3", "#0", "#" + id.ID} {
+		if _, err := kr.ResolveKeyByID(id.String()+frag, nil, resolver.AssertionMethod); firstErr != nil {
+			firstErr = err
 		}
 	}
+	_, _ = kr.ResolveKeyByID(id.String()+"#key-4", nil, resolver.Authentication)
+	_, _ = kr.ResolveKeyByID(id.String()+"#key-1", nil, resolver.RelationType(99))
 	for _, rel := range allRelations {
 		_, _, _ = kr.ResolveKey(id, nil, rel)
 	}
